@@ -477,8 +477,64 @@ func c20r3(c *Ctx, id string) {
 func ctxHasDeadline(w *World, v ssa.Value, depth int) (bool, string) {
 	v = resolveCell(v)
 	o := w.Origin(v)
-	if strings.Contains(o, "context.WithTimeout") || strings.Contains(o, "context.WithDeadline") {
-		return true, o
+	// the context itself is what context.WithTimeout/WithDeadline returned, or a child (WithValue, WithCancel, …) of
+	// one that is — a context some other function hands back "for" it (a span's reference context) is not: whether
+	// that still carries the deadline is that function's business, and the no-op tracer returns context.TODO()
+	{
+		x := unwrap(v)
+		if ex, isEx := x.(*ssa.Extract); isEx {
+			x = ex.Tuple
+		}
+		if call, isCall := x.(*ssa.Call); isCall {
+			if sf := call.Common().StaticCallee(); sf != nil && pkgPathOf(sf) == "context" {
+				switch sf.Name() {
+				case "WithTimeout", "WithDeadline", "WithTimeoutCause", "WithDeadlineCause":
+					return true, o
+				case "WithValue", "WithCancel", "WithCancelCause", "WithoutCancel":
+					if sf.Name() != "WithoutCancel" && len(call.Common().Args) > 0 {
+						return ctxHasDeadline(w, call.Common().Args[0], depth)
+					}
+				}
+				return false, o
+			}
+			if sf := call.Common().StaticCallee(); sf != nil && sf.Name() == "WithContext" && strings.HasSuffix(pkgPathOf(sf), "/errgroup") && len(call.Common().Args) > 0 {
+				return ctxHasDeadline(w, call.Common().Args[0], depth) // the group's context is a child of the one given
+			}
+			if sf := call.Common().StaticCallee(); sf != nil && w.inModule(sf) && sf.Blocks != nil && depth > 0 {
+				// a module helper that makes the context: every context it returns is deadline-bearing
+				idx := 0
+				if ex, isEx := unwrap(v).(*ssa.Extract); isEx {
+					idx = ex.Index
+				}
+				all, n := true, 0
+				for _, b := range sf.Blocks {
+					for _, in := range b.Instrs {
+						if r, isR := in.(*ssa.Return); isR && idx < len(r.Results) {
+							n++
+							rv := r.Results[idx]
+							if pr, isP := unwrap(rv).(*ssa.Parameter); isP {
+								for k, sp := range sf.Params {
+									if sp == pr && k < len(call.Common().Args) {
+										if has, _ := ctxHasDeadline(w, call.Common().Args[k], depth-1); !has {
+											all = false
+										}
+									}
+								}
+								continue
+							}
+							if has, _ := ctxHasDeadlineLocal(w, rv, depth-1); !has {
+								all = false
+							}
+						}
+					}
+				}
+				if all && n > 0 {
+					return true, "deadline-bearing on every return of " + fname(sf)
+				}
+				return false, o + " (not deadline-bearing on every return of " + fname(sf) + ")"
+			}
+			return false, o
+		}
 	}
 	p, ok := unwrap(v).(*ssa.Parameter)
 	if fv, isFV := unwrap(v).(*ssa.FreeVar); isFV {
@@ -501,6 +557,15 @@ func ctxHasDeadline(w *World, v ssa.Value, depth int) (bool, string) {
 		}
 	}
 	return true, "deadline-bearing at all " + fmt.Sprint(len(callers)) + " call sites of " + fname(fn)
+}
+
+// ctxHasDeadlineLocal: as ctxHasDeadline, for a value inside a helper — a parameter of the helper is not followed to
+// the helper's callers (the caller of ctxHasDeadline does that for the call at hand).
+func ctxHasDeadlineLocal(w *World, v ssa.Value, depth int) (bool, string) {
+	if _, isP := unwrap(resolveCell(v)).(*ssa.Parameter); isP {
+		return false, "parameter"
+	}
+	return ctxHasDeadline(w, v, depth)
 }
 
 func c20r4(c *Ctx, id string) {
